@@ -6,6 +6,7 @@ CONSTANTS
   ClassSel = "three"
   FirstSel = "four"
   CollectMode = "bound"
+  FbMode = "faithful"
 INIT Init
 NEXT Next
 INVARIANT PlainlyAccepted
